@@ -209,6 +209,9 @@ def run_family(ctx, prop, clause_of, nontrivial, rule, want=("steps", "dec", "ch
             continue
         if nontrivial(v, rec):
             nontriv.add(rec["hex"])
+        if prop == "C04" and rec["fick"]["chk"]["ok"] and rec["fick"]["chk"]["sev"] < v.get("mv", 0) and len(ctx.drift) < 5 \
+                and "F:same-name-different-module" not in features(rec):
+            ctx.drift.append(f"real verdict {rec['fick']['chk']['sev']} below the rule-set model's {v['mv']} on " + assemble_safe(rec))
         c = clause_of(v, rec)
         if c:
             opset = sorted({o["o"] for o in rec["prog"]} | features(rec))
